@@ -225,10 +225,11 @@ def convergence(src, n=2, faults=1, delays=0, rounds=6, closing=10, configs=('LI
 def _converged(src, cl, plan, senders, sig=None):
     from harness import cluster_common as CC
     sig = sig or '+'.join(k[0] for _, _, k in plan) or 'none'
-    for g in CC.groups(cl):
+    skipped = []
+    for g in CC.groups(cl, skipped):
         ids = [c.ident for c in g]
         masters = {c.ident: c.rpc_intf.get_master_identifier() for c in g}
-        names = {m['identifier'] for m in masters.values()}
+        names = {m.get('identifier', '') for m in masters.values()}
         src.check('one-master-per-group', len(names) == 1 and '' not in names, sig=sig, masters=masters,
                   states={c.ident: c.fsm.state.name for c in g})
         m = list(names)[0]
@@ -241,6 +242,8 @@ def _converged(src, cl, plan, senders, sig=None):
     for who, name, ns, was_master, state in senders:
         src.check('automatic-request-only-from-a-master', was_master, sig=name, sender=who, namespec=ns, state=state)
     src.check('no-internal-error', not cl.criticals(), sig=sig, log=cl.criticals()[:1])
+    if skipped:
+        src.reach('overlapping-groups-left-out')
     src.reach('quiescent')
     src.obs('masters', {c.ident: c.state_modes.master_identifier for c in cl.live()})
 
@@ -251,19 +254,7 @@ def split_brain(src, n=2, max_len=8, configs=('LIST+TIMEOUT', 'CORE'), fences=(F
     side may or may not have kept / elected its own Master) cuts one instance from the others, then heals"""
     from harness import cluster_common as CC
 
-    def plan_fn(src):
-        cut = src.pick_int('cut_instance', 0, n - 1)
-        start = src.pick_int('partition_round', 2, 3)
-        pos = src.pick_int('partition_pos', 0, n - 1)
-        length = src.pick_int('partition_length', 1, max_len)
-        hpos = src.pick_int('heal_pos', 0, n - 1)
-        plan = []
-        for other in range(n):
-            if other != cut:
-                a, b = min(cut, other), max(cut, other)
-                plan.append((start, pos, ('partition', a, b)))
-                plan.append((start + length, hpos, ('heal', a, b)))
-        return plan
+    plan_fn = CC.split_brain_plan(n, max_len)
     cl, cfg, plan, senders, traces = CC.run_schedule(src, n=n, rounds=4 + max_len, closing=12, configs=configs,
                                                      fences=fences, plan_fn=plan_fn)
     length = plan[1][0] - plan[0][0]
